@@ -13,18 +13,18 @@ import m "github.com/cockroachdb/redact/internal/markers"
 -- Buffer write". The Buffer invariant (abstract here) is carried implicitly.
 
 func (b *StringBuilder) Write(s []byte) (n int, err error)
-  assert [C09,C02] b.mode == UnsafeEscaped before "return b.Buffer.Write(s)"
+  assert [C01,C02,C09] b.mode == UnsafeEscaped before "return b.Buffer.Write(s)"
   ensures n == len(s)
 
 func (b *StringBuilder) WriteString(s string) (n int, err error)
-  assert [C09,C02] b.mode == UnsafeEscaped before "return b.Buffer.WriteString(s)"
+  assert [C01,C02,C09] b.mode == UnsafeEscaped before "return b.Buffer.WriteString(s)"
   ensures n == len(s)
 
 func (b *StringBuilder) WriteByte(c byte) (err error)
-  assert [C09,C02] b.mode == UnsafeEscaped before "return b.Buffer.WriteByte(c)"
+  assert [C01,C02,C09] b.mode == UnsafeEscaped before "return b.Buffer.WriteByte(c)"
 
 func (b *StringBuilder) WriteRune(r rune) (err error)
-  assert [C09,C02] b.mode == UnsafeEscaped before "return b.Buffer.WriteRune(r)"
+  assert [C01,C02,C09] b.mode == UnsafeEscaped before "return b.Buffer.WriteRune(r)"
 
 func (b *StringBuilder) Print(args ...interface{})
   requires [C08] b.mode == SafeRaw ==> clean(b.buf, len(b.buf))
@@ -42,41 +42,41 @@ func (b *StringBuilder) Printf(format string, args ...interface{})
   ensures [C08,C09,C16] Routed(2, args) && sameView(fdf, format) && fdfl == len(format)
 
 func (b *StringBuilder) SafeString(s i.SafeString)
-  assert [C09,C05] b.mode == SafeEscaped before "_, _ = b.Buffer.WriteString(string(s))"
+  assert [C01,C05,C09] b.mode == SafeEscaped before "_, _ = b.Buffer.WriteString(string(s))"
 
 func (b *StringBuilder) SafeInt(s i.SafeInt)
   may-panic
   modifies b, alloc, memU
-  assert [C09,C05] b.mode == SafeEscaped before "_, _ = ifmt.Fprintf(&b.Buffer, \"%d\", s)"
+  assert [C01,C05,C09] b.mode == SafeEscaped before "_, _ = ifmt.Fprintf(&b.Buffer, \"%d\", s)"
 
 func (b *StringBuilder) SafeUint(s i.SafeUint)
   may-panic
   modifies b, alloc, memU
-  assert [C09,C05] b.mode == SafeEscaped before "_, _ = ifmt.Fprintf(&b.Buffer, \"%d\", s)"
+  assert [C01,C05,C09] b.mode == SafeEscaped before "_, _ = ifmt.Fprintf(&b.Buffer, \"%d\", s)"
 
 func (b *StringBuilder) SafeFloat(s i.SafeFloat)
   may-panic
   modifies b, alloc, memU
-  assert [C09,C05] b.mode == SafeEscaped before "_, _ = ifmt.Fprintf(&b.Buffer, \"%v\", s)"
+  assert [C01,C05,C09] b.mode == SafeEscaped before "_, _ = ifmt.Fprintf(&b.Buffer, \"%v\", s)"
 
 func (b *StringBuilder) SafeRune(s i.SafeRune)
-  assert [C09,C05] b.mode == SafeEscaped before "_ = b.Buffer.WriteRune(rune(s))"
+  assert [C01,C05,C09] b.mode == SafeEscaped before "_ = b.Buffer.WriteRune(rune(s))"
 
 func (b *StringBuilder) SafeByte(s i.SafeByte)
-  assert [C09,C05] b.mode == SafeEscaped before "_ = b.Buffer.WriteByte(byte(s))"
+  assert [C01,C05,C09] b.mode == SafeEscaped before "_ = b.Buffer.WriteByte(byte(s))"
 
 func (b *StringBuilder) SafeBytes(s i.SafeBytes)
-  assert [C09,C05] b.mode == SafeEscaped before "_, _ = b.Buffer.Write([]byte(s))"
+  assert [C01,C05,C09] b.mode == SafeEscaped before "_, _ = b.Buffer.Write([]byte(s))"
 
 func (b *StringBuilder) UnsafeString(s string)
-  assert [C09,C02] b.mode == UnsafeEscaped before "_, _ = b.Buffer.WriteString(s)"
+  assert [C01,C02,C09] b.mode == UnsafeEscaped before "_, _ = b.Buffer.WriteString(s)"
 
 func (b *StringBuilder) UnsafeRune(s rune)
-  assert [C09,C02] b.mode == UnsafeEscaped before "_ = b.Buffer.WriteRune(s)"
+  assert [C01,C02,C09] b.mode == UnsafeEscaped before "_ = b.Buffer.WriteRune(s)"
 
 func (b *StringBuilder) UnsafeByte(s byte)
-  assert [C09,C02] b.mode == UnsafeEscaped before "_ = b.Buffer.WriteByte(s)"
+  assert [C01,C02,C09] b.mode == UnsafeEscaped before "_ = b.Buffer.WriteByte(s)"
 
 func (b *StringBuilder) UnsafeBytes(s []byte)
-  assert [C09,C02] b.mode == UnsafeEscaped before "_, _ = b.Buffer.Write(s)"
+  assert [C01,C02,C09] b.mode == UnsafeEscaped before "_, _ = b.Buffer.Write(s)"
 @*/
